@@ -149,9 +149,9 @@ Qed.
 Lemma coalesce_all_covers ts a b : coalesce_all ts = (a, b) -> sorted_fst ts ->
   forall t, a <= t <= b -> tombed ts t = true.
 Proof.
-  destruct ts as [|r0 r]; simpl; intros H [S0 Sr] t Ht.
+  intros H S t Ht. destruct ts as [|r0 r]; simpl in H.
   - inversion H; subst. pose proof min_lt_max. lia.
-  - change (tombed ([r0] ++ r) t = true).
+  - destruct S as [S0 Sr]. change (tombed ([r0] ++ r) t = true).
     apply (coalesce_covers r r0 (fst r0) (snd r0) a b [r0]); auto.
     + simpl; auto.
     + lia.
@@ -216,7 +216,7 @@ Proof.
     symmetry. unfold kf_get. rewrite A. simpl.
     destruct (tombed (kf_tombs kf) t) eqn:Tb; [reflexivity|]. simpl.
     destruct (assoc t (kf_pts kf)) as [v|] eqn:E; [|reflexivity]. exfalso.
-    destruct (Hpt v E) as [_ H2].
+    destruct (Hpt v eq_refl) as [_ H2].
     apply andb_true_iff in Ch as [C1 C2]. apply Z.leb_le in C1, C2.
     assert (Hc : tombed (ins_tr (lo, hi) (kf_tombs kf)) t = true).
     { apply (coalesce_all_covers _ a b Co); [|lia]. apply ins_tr_sorted; auto. }
@@ -383,10 +383,12 @@ Proof.
   intros Hs He. unfold eng_delete. destruct sel as [|s0 sr] eqn:Es; [congruence|].
   rewrite <- Es in *. clear Es. rewrite He. simpl. rewrite filter_In.
   split; intros [H1 H2]; split; auto.
-  - apply negb_true_iff in H2.
-    destruct (memN s sel); auto. simpl in H2.
-    destruct (on_disk _ s); auto. destruct (in_cache _ s); auto. simpl in H2.
-    destruct (has_cache_values _ _ _ _ s); auto. discriminate.
+  - apply negb_true_iff in H2. apply andb_false_iff in H2 as [H2|H2].
+    + apply andb_false_iff in H2 as [H2|H2].
+      * apply andb_false_iff in H2 as [H2|H2]; [left; exact H2|].
+        right. left. apply negb_false_iff. exact H2.
+      * right. right. left. apply negb_false_iff. exact H2.
+    + right. right. right. apply negb_false_iff. exact H2.
   - apply negb_true_iff. destruct H2 as [H|[H|[H|H]]]; rewrite H; simpl; rewrite ?andb_false_r; auto.
 Qed.
 
@@ -398,4 +400,115 @@ Proof.
   - apply N.eqb_eq in H. exists k', t'. simpl.
     destruct (log_get r k' t') eqn:E; [eauto|]. rewrite N.eqb_refl, Z.eqb_refl. simpl. eauto.
   - destruct (IH H) as (k & t & v & E1 & E2). exists k, t. rewrite E2. eauto.
+Qed.
+
+(** * the per-shard loop of Store.DeleteSeriesWithPredicate (no measurement shortcut) *)
+Lemma bcompare_eq : forall a b, bcompare a b = Eq -> a = b.
+Proof.
+  induction a as [|x a IH]; intros [|y b]; simpl; try discriminate; auto.
+  destruct (N.compare x y) eqn:C; try discriminate.
+  apply N.compare_eq in C. subst. intros H. f_equal. auto.
+Qed.
+
+Lemma In_ins_bytes x y : forall l, In y (ins_bytes x l) <-> y = x \/ In y l.
+Proof.
+  induction l as [|z r IH]; simpl.
+  - split; [intros [H|[]]; auto | intros [H|[]]; auto].
+  - destruct (bcompare x z) eqn:C; simpl.
+    + apply bcompare_eq in C. subst. split; [intros [H|H]; auto | intros [H|[H|H]]; subst; auto].
+    + split; [intros [H|[H|H]]; auto | intros [H|[H|H]]; auto].
+    + rewrite IH. split; [intros [H|[H|H]]; auto | intros [H|[H|H]]; auto].
+Qed.
+
+Lemma In_sort_names y : forall l, In y (sort_names l) <-> In y l.
+Proof.
+  induction l as [|x r IH].
+  - simpl. split; auto.
+  - change (sort_names (x :: r)) with (ins_bytes x (sort_names r)).
+    rewrite In_ins_bytes, IH. simpl. split; [intros [H|H]; auto | intros [H|H]; auto].
+Qed.
+
+Lemma in_sel_iff sel k : in_sel sel k = true <-> In (series_of k) sel.
+Proof.
+  unfold in_sel. rewrite existsb_exists. split.
+  - intros (x & Hx & E). apply N.eqb_eq in E. subst. exact Hx.
+  - intros H. exists (series_of k). split; auto. apply N.eqb_refl.
+Qed.
+
+Lemma eng_delete_listed_other defs sh sel lo hi s :
+  ~ In s sel -> (In s (sh_listed (eng_delete defs sh sel lo hi)) <-> In s (sh_listed sh)).
+Proof.
+  intros Hn. unfold eng_delete. destruct sel as [|s0 sr] eqn:Es; [tauto|]. rewrite <- Es in *. clear Es.
+  destruct (negb (existsb (fun f => file_overlaps f lo hi) (sh_files sh)) &&
+            match sh_cache sh with [] => true | _ => false end); [tauto|].
+  simpl. rewrite filter_In. split; [tauto|]. intros H. split; auto.
+  assert (memN s sel = false) as ->; [|reflexivity].
+  unfold memN. destruct (existsb (N.eqb s) sel) eqn:E; auto.
+  apply existsb_exists in E as (x & Hx & E). apply N.eqb_eq in E. subst. contradiction.
+Qed.
+
+Definition hit (defs : list sdef) (p : pred) (lo hi : Z) (sh : shard) (ms : list bytes) (k : key) (t : Z) : Prop :=
+  In (series_of k) (sh_listed sh) /\ In (sname defs (series_of k)) ms /\
+  matches no_regex p (engine_key (sname defs (series_of k)) (stags defs (series_of k))) = true /\
+  in_range lo hi t = true.
+
+Lemma classic_hit defs p lo hi sh ms k t :
+  hit defs p lo hi sh ms k t \/ ~ hit defs p lo hi sh ms k t.
+Proof.
+  unfold hit.
+  destruct (in_dec N.eq_dec (series_of k) (sh_listed sh)); [|right; tauto].
+  destruct (in_dec (list_eq_dec N.eq_dec) (sname defs (series_of k)) ms); [|right; tauto].
+  destruct (matches no_regex p (engine_key (sname defs (series_of k)) (stags defs (series_of k))));
+    [|right; intros (_ & _ & H & _); discriminate].
+  destruct (in_range lo hi t); [left; auto | right; intros (_ & _ & _ & H); discriminate].
+Qed.
+
+Lemma selected_iff defs p sh mm s :
+  In s (selected defs p sh mm) <->
+  In s (sh_listed sh) /\ sname defs s = mm /\
+  matches no_regex p (engine_key (sname defs s) (stags defs s)) = true.
+Proof.
+  unfold selected. rewrite filter_In, andb_true_iff. split.
+  - intros (H1 & H2 & H3). split; auto. split; auto.
+    apply (list_eqb_spec N.eqb) in H2; auto. intros; apply N.eqb_eq.
+  - intros (H1 & H2 & H3). split; auto. split; auto.
+    apply (list_eqb_spec N.eqb); auto. intros; apply N.eqb_eq.
+Qed.
+
+Theorem del_loop_exact defs p lo hi : forall ms sh k t,
+  NoDup ms -> wf_shard sh ->
+  (hit defs p lo hi sh ms k t -> get (del_loop defs p lo hi None ms sh) k t = None) /\
+  (~ hit defs p lo hi sh ms k t -> get (del_loop defs p lo hi None ms sh) k t = get sh k t).
+Proof.
+  induction ms as [|mm r IH]; intros sh k t Hnd W.
+  - simpl. split; [intros (_ & [] & _) | reflexivity].
+  - simpl. apply NoDup_cons_iff in Hnd as [Hmm Hr].
+    set (sel := selected defs p sh mm).
+    set (sh' := eng_delete defs sh sel lo hi).
+    assert (W' : wf_shard sh') by (apply eng_delete_wf; auto).
+    destruct (IH sh' k t Hr W') as [I1 I2].
+    assert (G : get sh' k t = if in_sel sel k && in_range lo hi t then None else get sh k t)
+      by (apply eng_delete_exact; auto).
+    assert (Hother : forall s, sname defs s <> mm ->
+                     (In s (sh_listed sh') <-> In s (sh_listed sh))).
+    { intros s Hs. apply eng_delete_listed_other. intros Hin.
+      apply selected_iff in Hin as (_ & E & _). contradiction. }
+    split.
+    + intros (H1 & H2 & H3 & H4). destruct H2 as [H2|H2].
+      * (* this measurement's turn *)
+        assert (Hsel : in_sel sel k = true).
+        { apply in_sel_iff. apply selected_iff. auto. }
+        destruct (classic_hit defs p lo hi sh' r k t) as [Hh|Hh].
+        -- auto.
+        -- rewrite (I2 Hh), G, Hsel, H4. reflexivity.
+      * apply I1. split; [|split; auto].
+        apply Hother; auto. intros E. apply Hmm. rewrite <- E. exact H2.
+    + intros Hn.
+      assert (Hn' : ~ hit defs p lo hi sh' r k t).
+      { intros (H1 & H2 & H3 & H4). apply Hn. split; [|split; [right; auto | auto]].
+        apply Hother; auto. intros E. apply Hmm. rewrite <- E. exact H2. }
+      rewrite (I2 Hn'), G.
+      destruct (in_sel sel k && in_range lo hi t) eqn:E; [|reflexivity].
+      exfalso. apply andb_true_iff in E as [E1 E2]. apply in_sel_iff in E1.
+      apply selected_iff in E1 as (H1 & H2 & H3). apply Hn. split; auto. split; [left; auto | auto].
 Qed.
